@@ -72,6 +72,20 @@ def cores(repo):
             doc="C15: how the return-mode, run-mode and unmatched-mode settings of the outer comment are read (the `value` getters; "
                 "`self.controller.get(<mode>)` is the metadata field of that name)."),
          [("ReturnMode", "value"), ("RunMode", "value"), ("UnmatchedMode", "value")]),
+        (py2lean.Core(
+            repo, "Matches",
+            [("csvpath/matching/matcher.py", "Matcher", ["matches"]),
+             ("csvpath/util/line_monitor.py", "LineMonitor", ["is_last_line_and_blank"])],
+            heap=True,
+            ignore=LOGGING,
+            opaque={"self._do_lasts": "do_lasts", "self.clear_errors": "clear_errors"},
+            links={("Matcher", "self.csvpath.line_monitor"): "LineMonitor"},
+            lists={"self.expressions": {"calls": {"[0].matches": "expr_matches"}}},
+            doc="C01/C13: the top level of a match (`Matcher.matches`): the loop over the match components, the stop and skip cuts, "
+                "the AND/OR fold of the votes (heap mode; `et[0].matches(skip=[])` is an opaque call into the component with the index of "
+                "the component, `et[1]` — the vote an onmatch look-ahead may have left — a field of the element; `_do_lasts` and "
+                "`clear_errors` are opaque calls)."),
+         [("Matcher", "matches")]),
     ]
 
 
